@@ -4,7 +4,8 @@ from __future__ import annotations
 
 from ..core import Ctx, HarnessError, Result
 from ..sched import catalogue as cat
-from ..sched.catalogue import A, AND, OR, E, N, RefGraph, spec_from
+from ..sched.catalogue import (
+    A, AND, OR, E, N, RefGraph, atoms, spec_from)
 from ..sched.mon_c46 import C46Profile, RefStart, StartRuns
 from ..sched.monitors import CycleBounds
 from ..sched.run import explore_all, replay_violation, result_from
@@ -28,6 +29,13 @@ ASSUME = [
     '1 command per execution, offered at every main-loop boundary); what a '
     'manually triggered pre-start instance leads to before START must not '
     'run',
+    'liveness (every instance that follows from the start ran) is not '
+    'demanded for instances at cycle points after an instance that was '
+    'spawned with a dependency no start task leads to: it legitimately '
+    'holds the runahead window (operator-caused stall)',
+    'start tasks whose own trigger refers beyond the final cycle point '
+    '(future trigger at the final cycle) are excluded: the scheduler refuses'
+    ' to spawn them',
     'no restart, no reload',
 ]
 
@@ -52,34 +60,35 @@ def P1(shape):
     return [('P1', SH[shape])]
 
 
-# name -> (sections, fcp quick, fcp thorough, extra)
+# name -> (sections, fcp quick, fcp thorough, extra, thorough: trigger
+#          profile?, thorough: number of start-task pairs)
 RA0 = {'scheduling': {'runahead limit': 'P0'}}
 BASES = {
-    'chain2': (P1('chain2'), 2, 3, {}),
-    'prev': (P1('prev'), 3, 4, {}),
-    'prevb': (P1('prevb'), 2, 3, RA0),
-    'future': (P1('future'), 2, 3, {}),
-    'feed': (FEED, 3, 3, {}),
-    'multi': (MULTI, 3, 4, {}),
-    'back2': (BACK2, 4, 4, RA0),
-    'prev2': (P1('prev2'), 3, 3, {}),
-    'and': (P1('and'), None, 2, {}),
-    'or': (P1('or'), None, 2, {}),
-    'chain3': (P1('chain3'), None, 2, {}),
-    'orprev': (ORPREV, None, 3, RA0),
-    'andprev': (ANDPREV, None, 3, {}),
-    'ends': (ENDS, None, 3, {}),
+    'chain2': (P1('chain2'), 2, 2, {}, True, 4),
+    'prev': (P1('prev'), 3, 4, {}, True, 0),
+    'prevb': (P1('prevb'), 2, 3, RA0, True, 2),
+    'future': (P1('future'), 2, 3, {}, True, 2),
+    'feed': (FEED, 3, 3, {}, True, 2),
+    'multi': (MULTI, 3, 4, {}, False, 2),
+    'back2': (BACK2, 4, 4, RA0, False, 2),
+    'prev2': (P1('prev2'), 3, 3, {}, True, 2),
+    'and': (P1('and'), None, 2, {}, False, 2),
+    'or': (P1('or'), None, 2, {}, False, 2),
+    'chain3': (P1('chain3'), None, 2, {}, False, 2),
+    'orprev': (ORPREV, None, 3, RA0, False, 2),
+    'andprev': (ANDPREV, None, 3, {}, False, 2),
+    'ends': (ENDS, None, 3, {}, True, 2),
 }
 # quick: (base, warm start points, start-task selections, trigger?)
 QUICK = [
-    ('chain2', (2,), 'singles+pairs', True),
-    ('prev', (2, 3), 'singles', False),
-    ('prevb', (2,), 'singles', False),
-    ('future', (2,), (), False),
-    ('feed', (2,), (), False),
-    ('multi', (2,), (), False),
-    ('back2', (3,), (), False),
-    ('prev2', (2,), (), False),
+    ('chain2', (2,), 'singles+pairs', True, 2),
+    ('prev', (2, 3), 'singles', False, 0),
+    ('prevb', (2,), 'singles', False, 0),
+    ('future', (2,), (), False, 0),
+    ('feed', (2,), (), False, 0),
+    ('multi', (2,), (), False, 0),
+    ('back2', (3,), (), False, 0),
+    ('prev2', (2,), (), False, 0),
 ]
 
 
@@ -87,6 +96,11 @@ def _supported(secs, fcp, options) -> bool:
     """Inside the reference sub-language (see RefStart._chain)?"""
     ref = RefStart({'sections': secs, 'icp': 1, 'fcp': fcp,
                     'options': options})
+    for t, p in (ref.seeds or ()):
+        # a start task with a dependency beyond the final point is refused
+        # by the scheduler (it could never run in any flow): not judged
+        if any(p + a[2] > fcp for e in ref.exprs(t, p) for a in atoms(e)):
+            return False
     for t in ref.tasks:
         pts = sorted(q for q in ref.points[t] if q >= ref.start)
         flags = [ref.parentless(t, q) for q in pts]
@@ -115,12 +129,12 @@ def rows(tier):
         return sorted((p, t) for t in ref.tasks for p in ref.points[t])
 
     if tier == 'quick':
-        plan = [(b, BASES[b][1], w, sel, trig)
-                for b, w, sel, trig in QUICK]
+        plan = [(b, BASES[b][1], w, sel, trig, npairs)
+                for b, w, sel, trig, npairs in QUICK]
     else:
-        plan = [(b, v[2], tuple(range(2, v[2] + 1)), 'singles+pairs', True)
-                for b, v in BASES.items()]
-    for base, fcp, warm, sel, trig in plan:
+        plan = [(b, v[2], tuple(range(2, v[2] + 1)), 'singles+pairs', v[4],
+                 v[5]) for b, v in BASES.items()]
+    for base, fcp, warm, sel, trig, npairs in plan:
         secs, extra = BASES[base][0], BASES[base][3]
         insts = instances(secs, fcp)
         for w in warm:
@@ -136,7 +150,10 @@ def rows(tier):
         if sel == 'singles+pairs':
             # pairs at different cycle points (START = the earlier one)
             pairs = [(x, y) for x in insts for y in insts
-                     if x[0] < y[0] and x[1] != y[1]][:4]
+                     if x[0] < y[0] and x[1] != y[1]]
+            # spread the selection over the list (fixed order)
+            step = max(1, len(pairs) // max(1, npairs))
+            pairs = pairs[step - 1::step][:npairs]
             for (p1, t1), (p2, t2) in pairs:
                 add(f'{base}-f{fcp}-t{p1}{t1}+{p2}{t2}', secs, fcp, extra,
                     starttask=[f'{p1}/{t1}', f'{p2}/{t2}'])
@@ -170,7 +187,7 @@ def run(ctx: Ctx) -> Result:
     specs = catalogue(ctx.tier)
     st = explore_all(
         ctx, [make_factory(s) for s in specs],
-        max_states=ctx.pick(6000, 60000), max_seconds=ctx.pick(110, 1500))
+        max_states=ctx.pick(6000, 60000), max_seconds=ctx.pick(115, 2400))
     if not st.error and not st.violations:
         for flag in NEED:
             if not any(flag in k for k in st.terminals):
